@@ -2,9 +2,12 @@ package graph
 
 import (
 	"fmt"
+	"path"
+	"reflect"
 
 	"pgregory.net/rapid"
 	"verif/harness/kit"
+	"verif/harness/model"
 )
 
 // LazyAfterOther is a history shared by several properties: a container is started, then ANOTHER container of the
@@ -54,4 +57,67 @@ func LazyAfterOther(t *rapid.T, prop string, rank bool) (string, []string, bool)
 		labels = append(labels, fmt.Sprintf("lazy-created-after-other-start"))
 	}
 	return desc, labels, lazies > 0
+}
+
+// VariantLookups asks the started container for every scenario component under names that are NOT its registered
+// name but look like it: blanks around the name, and - for a component with a custom name - its default
+// package/type name. Such a lookup either fails or hands out the very instance the registered name gives; in no case
+// does it create anything (no initialization callback runs a second time).
+func VariantLookups(in *Instance) error {
+	type snap struct{ init, aps int }
+	before := map[int]snap{}
+	for i, b := range in.Behs {
+		if b != nil {
+			before[i] = snap{b.InitCalls, b.APSCalls}
+		}
+	}
+	for _, c := range in.G.Pop {
+		if c.ID < 0 || !in.WasCreated(c.ID) {
+			continue
+		}
+		var want any
+		var werr error
+		if p := kit.Protect(func() { want, werr = in.Out.App.GetComponentByName(c.Name) }); p != nil || werr != nil {
+			continue
+		}
+		variants := []string{" " + c.Name, c.Name + " ", "\t" + c.Name}
+		if c.Named {
+			t := c.Typ
+			for t.Kind() == reflect.Pointer {
+				t = t.Elem()
+			}
+			if t.Name() != "" {
+				variants = append(variants, path.Join(t.PkgPath(), t.Name()))
+			}
+		}
+		for _, v := range variants {
+			taken := false
+			for _, o := range in.G.Pop {
+				if o.Name == v {
+					taken = true // that spelling is another component's registered name
+				}
+			}
+			if taken {
+				continue
+			}
+			var got any
+			var err error
+			if p := kit.Protect(func() { got, err = in.Out.App.GetComponentByName(v) }); p != nil || err != nil {
+				continue
+			}
+			if got != want {
+				return fmt.Errorf("GetComponentByName(%q) returns %T %p, GetComponentByName(%q) returns %T %p: two versions of one component are handed out", v, got, got, c.Name, want, want)
+			}
+		}
+	}
+	for i, b := range in.Behs {
+		if b == nil {
+			continue
+		}
+		if s := before[i]; b.InitCalls != s.init || b.APSCalls != s.aps {
+			n, _ := model.NameOf(in.Comps[i])
+			return fmt.Errorf("lookups under names that only resemble registered ones ran initialization callbacks of %q again (Init %d -> %d, AfterPropertiesSet %d -> %d)", n, s.init, b.InitCalls, s.aps, b.APSCalls)
+		}
+	}
+	return nil
 }
